@@ -23,17 +23,19 @@ for k in ks:
     rc1, o1 = sh(f"cd {WT} && PYTHONPATH={WT} timeout 600 /venv/bin/python {src}/demo.py")
     rct, ot = sh(f"cd {WT} && timeout 900 /venv/bin/python -m pytest -q -p no:cacheprovider --timeout=900 2>&1 | tail -1")
     rcc, oc = sh(f"cd /verif && VERIF_REPO={WT} timeout 1800 ./check {check_pid} --tier quick", env=dict(os.environ, VERIF_REPO=WT))
-    sh(f"git -C {WT} checkout -q -- . && git -C {WT} clean -fdq; rm -rf /var/tmp/verif_alt_" + __import__('hashlib').sha1(__import__('os').path.realpath(WT).encode()).hexdigest()[:10] + "")
+    work = "/var/tmp/verif_alt_" + __import__('hashlib').sha1(__import__('os').path.realpath(WT).encode()).hexdigest()[:10]
+    sh(f"git -C {WT} checkout -q -- . && git -C {WT} clean -fdq")
     ok = rc0 == 0 and rc1 != 0 and "559 passed" in ot
     viol = [l for l in oc.splitlines() if l.startswith("VIOLATION")]
     replay_txt = ""
     if viol:
         rp = viol[0].split("replay=")[1].split()[0]
         try:
-            d = json.load(open(os.path.join("/verif", rp)))
+            d = json.load(open(os.path.join(work, rp)))
             replay_txt = json.dumps(d.get("failing_input", d.get("no_longer_checks")), default=str)[:600]
         except Exception as ex:
             replay_txt = repr(ex)
+    sh(f"rm -rf {work}")
     print(f"{pid}-{k}: demo_clean_rc={rc0} demo_mut_rc={rc1} suite='{ot.strip()[-40:]}' confirmed={ok} check_rc={rcc} violations={len(viol)} nfif={'no-failing-input-found' in oc}")
     if not ok:
         continue
